@@ -315,13 +315,21 @@ def cluster_runs(run, ncases, length, kills, faults=True):
     return cases, outs, dist
 
 def check_cluster_property(run, props_file, cone, oracles, kills=False, quick=(150, 40), thorough=(1500, 70), node_level=True,
-                           classify=None, histories=False):
+                           classify=None, histories=False, refine=False):
     """Shared flow: proofs, node-level correspondence of the election model, cluster schedules on the real nodes,
-    the property oracles on the real executions."""
+    the property oracles on the real executions. refine=True: every execution is also replayed in Coq as an
+    execution of DE.AbstractRaft (dvlib.refine.validate_refinement); evidence keys traces_refined_in_coq,
+    labels_checked, outside_abstract_system; an unexplained execution is a broken obligation of kind 'refinement'."""
     thorough_t = run.tier == 'thorough'
     broken = []
     if props_file and os.path.exists(os.path.join(core.COQ, props_file)):
         broken += flow.proof_step(run, props_file, cone)
+    if refine:
+        # soundness of the executable abstract steps used by the refinement check below
+        pinned = run.cov.get('pinned_statements', [])
+        from . import refine as refine_mod
+        broken += flow.proof_step(run, *refine_mod.props_and_cone())
+        run.cov['pinned_statements'] = pinned + run.cov.get('pinned_statements', [])
     violations = []
     try:
         core.harness_build()
@@ -344,6 +352,14 @@ def check_cluster_property(run, props_file, cone, oracles, kills=False, quick=(1
             for cs, h in validate_histories(run, cases, outs, broken)[:2]:
                 violations.append({'class': 'history-fails-vote-once-or-majority-backing', 'probe': 'cluster', 'input': cs, 'output': h,
                                    'why': 'the execution history (voters, grants, leaders) fails DE.proofs.C01.vote_once_b / backed_b: a double vote or a leader not backed by a majority of recorded grants'})
+        if refine:
+            # executable refinement check: every real execution is replayed, label by label, as an execution of
+            # DE.AbstractRaft inside Coq (DE.ARExec.refine_ok, sound by Refine_exec_sound / Refine_trace_reaches);
+            # an execution that is not explained and not in a documented 'outside' class is a broken obligation
+            from . import refine as refine_mod
+            # quick tier: refine a seeded-stable subset (the Coq replay dominates the running time)
+            lim = len(cases) if thorough_t else 110
+            refine_mod.validate_refinement(run, cases[-lim:], outs[-lim:], broken)
         dist['terms-with-a-leader'] = sum(len(leaders_by_term(o)) for o in outs if not isinstance(o, str))
         dist['max-commit-sum'] = sum(max(nd[2] for obs, _ in o for nd in obs) for o in outs if not isinstance(o, str))
         run.add_cases(ok, len({json.dumps(c) for c in cases}), [{'n': cases[0][0], 'cap': cases[0][1], 'schedule': cases[0][2][:12]}], dist,
